@@ -197,6 +197,29 @@ type srcInfo struct {
 	validator string   // pkg/validate function named by the check factory ("" for buildUUIDCheck: validate.Regex on the pattern)
 	patternRe string   // regex.<Name> the factory exports
 	uses      []string // what the validator function (transitively, inside pkg/validate) relies on: "regex.X", "net.ParseCIDR", "time.Parse", ...
+	fp        []string // structure fingerprint of the validator (transitively): every call `x.Sel(...)` and every basic literal
+}
+
+// fingerprintOf lists the calls through a selector (`pkg.Fn`, `v.Method`, `.Method` on an expression) and the basic
+// literals (strings, numbers) of a function body, in source order.
+func fingerprintOf(n ast.Node) []string {
+	var out []string
+	ast.Inspect(n, func(x ast.Node) bool {
+		switch e := x.(type) {
+		case *ast.CallExpr:
+			if se, ok := e.Fun.(*ast.SelectorExpr); ok {
+				if id, ok := se.X.(*ast.Ident); ok {
+					out = append(out, id.Name+"."+se.Sel.Name)
+				} else {
+					out = append(out, "."+se.Sel.Name)
+				}
+			}
+		case *ast.BasicLit:
+			out = append(out, e.Value)
+		}
+		return true
+	})
+	return out
 }
 
 func parseFile(path string) (*ast.File, error) {
@@ -274,6 +297,23 @@ func scanSources(repo string) (map[string]srcInfo, error) {
 		}
 		return out
 	}
+	var fpOf func(name string, depth int, seen map[string]bool) []string
+	fpOf = func(name string, depth int, seen map[string]bool) []string {
+		fd := vfn[name]
+		if fd == nil || seen[name] || depth > 4 {
+			return nil
+		}
+		seen[name] = true
+		out := []string{"func " + name}
+		out = append(out, fingerprintOf(fd.Body)...)
+		for _, c := range localCalls(fd.Body) {
+			if c == "matchString" {
+				continue
+			}
+			out = append(out, fpOf(c, depth+1, seen)...)
+		}
+		return out
+	}
 	res := map[string]srcInfo{}
 	for _, f := range formats {
 		fd := cfn[f.checkFn]
@@ -296,6 +336,7 @@ func scanSources(repo string) (map[string]srcInfo, error) {
 			u := usesOf(si.validator, 0, map[string]bool{})
 			sort.Strings(u)
 			si.uses = dedupStrings(u)
+			si.fp = fpOf(si.validator, 0, map[string]bool{})
 		} else if si.patternRe != "" { // buildUUIDCheck(checkID, regex.X): validate.Regex(v, pattern)
 			si.uses = []string{"regex." + si.patternRe}
 		}
@@ -421,6 +462,11 @@ func genLean(repo, dir string) error {
 			valNames = append(valNames, nm)
 		}
 		tail = append(tail, fmt.Sprintf("def kind_%s : String := %q", f.name, kind))
+		if !regexKind {
+			// structure fingerprint of a parser-based validator: compared by vlib/c20.py with the expectation recorded
+			// next to its Lean transcription (Model/GoParsers.lean, lines `-- fingerprint <fmt>: ...`)
+			tail = append(tail, fmt.Sprintf("def fp_%s : String := %q", f.name, strings.Join(si.fp, " ")))
+		}
 		table = append(table, fmt.Sprintf("  (%q, ⟨kind_%s, [%s], [%s]⟩)", f.name, f.name, strings.Join(valNames, ", "), strings.Join(patNames, ", ")))
 		var sb strings.Builder
 		sb.WriteString("/-\n  GENERATED by harness/cmd/c20 (translator) from the working tree of the library — do not edit.\n")
